@@ -113,16 +113,24 @@ Definition vx_zeros (n : N) : bytes := repeatN 0 (N.to_nat n).
 (* pad with zeros up to absolute length n *)
 Definition vx_pad (n : N) (b : bytes) : bytes := b ++ vx_zeros (n - blen b).
 Definition vx_other_entry : bytes := vx_zeros 32.
-(* ident 'vhdxfile'; region table with [rt_pad] foreign entries before the METAREGION entry (offset mo);
-   metadata table at mo with signature [sig], [mt_pad] foreign entries before the VIRTUAL_DISK_SIZE
-   entry (item offset io, length il); [payload] at mo + io; [tail] more zero bytes *)
+(* a region table with [rt_pad] foreign entries before the METAREGION entry (offset mo) *)
+Definition vx_rt (rt_pad : nat) (mo : N) : bytes :=
+  le_enc 4 VHDX_REGI ++ le_enc 4 0 ++ le_enc 4 (N.of_nat (S rt_pad)) ++ le_enc 4 0
+  ++ concat (repeat vx_other_entry rt_pad)
+  ++ VHDX_GUID_METAREGION ++ le_enc 8 mo ++ le_enc 4 1048576 ++ le_enc 4 1.
+(* a metadata table with signature [sig] and [mt_pad] foreign entries before the VIRTUAL_DISK_SIZE
+   entry (item offset io, length il) *)
+Definition vx_mt (mt_pad : nat) (sig : bytes) (io il : N) : bytes :=
+  sig ++ le_enc 2 0 ++ le_enc 2 (N.of_nat (S mt_pad)) ++ vx_zeros 20
+  ++ concat (repeat vx_other_entry mt_pad)
+  ++ VHDX_GUID_VIRTUAL_DISK_SIZE ++ le_enc 4 io ++ le_enc 4 il ++ vx_zeros 8.
+(* ident 'vhdxfile', region table at 192 KiB, metadata table at mo (>= 256 KiB), [payload] at mo + io,
+   [tail] more zero bytes *)
 Definition vx_image (rt_pad mt_pad : nat) (sig : bytes) (mo io il : N) (payload : bytes) (tail : N) : bytes :=
-  let rt := VHDX_MAGIC
-            ++ vx_zeros (VX_HDR_OFF - 8)
-            ++ le_enc 4 VHDX_REGI ++ le_enc 4 0 ++ le_enc 4 (N.of_nat (S rt_pad)) ++ le_enc 4 0
-            ++ concat (repeat vx_other_entry rt_pad)
-            ++ VHDX_GUID_METAREGION ++ le_enc 8 mo ++ le_enc 4 1048576 ++ le_enc 4 1 in
-  let mt := sig ++ le_enc 2 0 ++ le_enc 2 (N.of_nat (S mt_pad)) ++ vx_zeros 20
-            ++ concat (repeat vx_other_entry mt_pad)
-            ++ VHDX_GUID_VIRTUAL_DISK_SIZE ++ le_enc 4 io ++ le_enc 4 il ++ vx_zeros 8 in
-  vx_pad (mo + io) (vx_pad mo (vx_pad VX_HDR_END rt) ++ mt) ++ payload ++ vx_zeros tail.
+  vx_pad (mo + io) (vx_pad mo (vx_pad VX_HDR_END (vx_pad VX_HDR_OFF VHDX_MAGIC ++ vx_rt rt_pad mo)) ++ vx_mt mt_pad sig io il)
+  ++ payload ++ vx_zeros tail.
+(* the same with the metadata table and the payload BEFORE the region table (mo + io + |payload| <= 192 KiB) *)
+Definition vx_image_back (mo io il : N) (payload : bytes) (tail : N) : bytes :=
+  vx_pad VX_HDR_END
+    (vx_pad VX_HDR_OFF (vx_pad (mo + io) (vx_pad mo VHDX_MAGIC ++ vx_mt 0 VHDX_META_SIG io il) ++ payload) ++ vx_rt 0 mo)
+  ++ vx_zeros tail.
